@@ -26,6 +26,7 @@ import (
 	"os/exec"
 	"path/filepath"
 	"regexp"
+	"runtime/pprof"
 	"sort"
 	"strconv"
 	"strings"
@@ -307,9 +308,17 @@ func cmdCheck(args []string) int {
 	workers := fs.Int("workers", 16, "")
 	noEvidence := fs.Bool("no-evidence", false, "do not write the evidence file")
 	first := fs.Bool("first", false, "stop each harness at its first violation")
+	cpuprof := fs.String("cpuprofile", "", "write a CPU profile")
 	fs.Parse(args[1:])
 	if *tier == "" {
 		*tier = "quick"
+	}
+	if *cpuprof != "" {
+		f, err := os.Create(*cpuprof)
+		if err == nil {
+			pprof.StartCPUProfile(f)
+			defer pprof.StopCPUProfile()
+		}
 	}
 	seed, _ := strconv.Atoi(os.Getenv("VERIF_SEED"))
 	t0 := time.Now()
@@ -631,7 +640,7 @@ func writeEvidence(id, tier string, seed int, cd *checkDef, P *engine.Program, h
 		"source_packages":               P.SourcePkgs,
 		"bounds":                        cd.Bounds,
 		"outside_the_claim":             cd.Outside,
-		"queries":                       map[string]any{"solver": "z3 4.8.12 (z3 -in, incremental)", "sat": solver.Sat, "unsat": solver.Unsat, "unknown": solver.Unknown, "solver_seconds": solver.Seconds},
+		"queries":                       map[string]any{"solver": "z3 5.1.0 (z3-new -in, incremental; override with SYMGO_SOLVER); fall-back one-shot z3 4.8.12 then cvc5 1.0 --solve-bv-as-int=sum", "sat": solver.Sat, "unsat": solver.Unsat, "unknown": solver.Unknown, "solver_seconds": solver.Seconds},
 		"inconclusive":                  inconclusive,
 		"known_finding_regions_hit":     knownHits,
 		"load_seconds":                  P.LoadSeconds,
